@@ -557,6 +557,19 @@ theorem C09_read (root : T) (p : Path) (f : Facts) (hf : Fresh root) :
       Fresh (readAt root p f).1 :=
   readAt_spec root p f hf
 
+/-- WHERE a read memoises: `sym_nondefault()` of a schema-bound node (an object, a typed Dict)
+whose memo is empty diffs the contents against the defaults and memoises the answer at that node
+only — its items, with whatever they memoise or not, are left exactly as they are (so the nodes
+between it and a later write may memoise nothing: every write therefore has to walk the whole chain
+to the root, `C09_invalidate_table`); a memo hit touches nothing at all. -/
+theorem C09_read_typed_memo (id : Nat) (sub : Bool) (miss : Option (List Path)) (cls : Nat) (sch : Schema)
+    (kd : Kind) (items : List (Key × T)) (d : LeafMap) :
+    (readND (.node ⟨id, sub, none, miss, cls, some sch⟩ kd items)).1
+        = .node ⟨id, sub, some (typedItems sch (T.svItems items)), miss, cls, some sch⟩ kd items ∧
+      (readND (.node ⟨id, sub, some d, miss, cls, some sch⟩ kd items))
+        = (.node ⟨id, sub, some d, miss, cls, some sch⟩ kd items, d) := by
+  simp [readND]
+
 /-- FRESHNESS over histories that interleave calls (notified or silent, at any depth) with reads at
 chosen nodes: the tree is fresh after every history … -/
 theorem C09_fresh_history : (hs : List HStep) → (root : T) → Fresh root → (∀ s ∈ hs, s.Admissible OpFresh) →
